@@ -1,0 +1,41 @@
+//go:build verif
+
+// Contracts for the deductive verifier in /verif (comment-only file; compiled out
+// unless the build tag `verif` is set, and even then contains no executable code).
+package distance
+
+// Bit-count definitions (property C20): hamming = number of differing bit positions,
+// jaccard = 1 - |x AND y| / |x OR y| (0 for an empty union). popcnt is the sum of the 64 bits
+// of a word (declared with math/bits.OnesCount64, which is verified against it).
+
+//@ spec hamSum(x []uint64, y []uint64, n int) int = ite(n <= 0, 0, hamSum(x, y, n-1) + popcnt(x[n-1] ^ y[n-1]))
+//@ spec andSum(x []uint64, y []uint64, n int) int = ite(n <= 0, 0, andSum(x, y, n-1) + popcnt(x[n-1] & y[n-1]))
+//@ spec orSum(x []uint64, y []uint64, n int) int = ite(n <= 0, 0, orSum(x, y, n-1) + popcnt(x[n-1] | y[n-1]))
+
+//@ func hammingDistance
+//@   property C20
+//@   arith bv
+//@   requires len(y) >= len(x)
+//@   ensures sameFloat(result, float32(hamSum(x, y, len(x))))
+//@   loop 1 invariant rangeindex >= -1 && rangeindex < len(x)
+//@   loop 1 invariant dist == hamSum(x, y, rangeindex+1)
+
+//@ func jaccardDistance
+//@   property C20
+//@   arith bv
+//@   requires len(y) >= len(x)
+//@   ensures orSum(x, y, len(x)) == 0 ==> result == 0
+//@   ensures orSum(x, y, len(x)) != 0 ==> sameFloat(result, 1 - float32(andSum(x, y, len(x)))/float32(orSum(x, y, len(x))))
+//@   loop 1 invariant rangeindex >= -1 && rangeindex < len(x)
+//@   loop 1 invariant intersection == andSum(x, y, rangeindex+1) && union == orSum(x, y, rangeindex+1)
+
+// Symmetry: induction steps (the induction itself is the standard meta-argument).
+//@ lemma hamSum_sym_step(x []uint64, y []uint64, n int): n > 0 && hamSum(x, y, n-1) == hamSum(y, x, n-1) ==> hamSum(x, y, n) == hamSum(y, x, n)
+//@   property C20
+//@   arith bv
+//@ lemma hamSum_sym_base(x []uint64, y []uint64): hamSum(x, y, 0) == hamSum(y, x, 0)
+//@   property C20
+//@   arith bv
+//@ lemma jacSum_sym_step(x []uint64, y []uint64, n int): n > 0 && andSum(x, y, n-1) == andSum(y, x, n-1) && orSum(x, y, n-1) == orSum(y, x, n-1) ==> andSum(x, y, n) == andSum(y, x, n) && orSum(x, y, n) == orSum(y, x, n)
+//@   property C20
+//@   arith bv
